@@ -9,6 +9,7 @@ import ClairModel.Proofs.TarFSInv
 import ClairModel.Proofs.TarFSSub
 import ClairModel.Proofs.TarFSExtract
 import ClairModel.Proofs.TarFSReject
+import ClairModel.Proofs.TarFSDir
 
 -- every variable of a property statement is bound explicitly: a misspelt name is an error, not a new variable
 set_option autoImplicit false
@@ -200,39 +201,65 @@ theorem invalid_path_refused (fs : FS) (p : Bytes) (hp : validPath p = false) :
     getInode fs p = .error .invalid :=
   getInode_invalid fs hp
 
-/-- Consistent Open: a regular file reads back the bytes of its inode's
-    segment, a directory lists its entries (the same list ReadDir gives), a
-    special file is refused, a symbolic link is followed. -/
+/-- Consistent Open: a regular file that fits its archive segment reads back
+    the bytes of the segment (`readSeg`: `checkSize`, then the reader), a
+    directory lists its entries (the same list ReadDir gives), a special file
+    is refused, a symbolic link is followed, a hard link reads the segment of
+    the file its chain ends at. -/
 theorem view_open (fs : FS) (h : TreeOK [] fs) (p : Bytes) (hp : validPath p = true)
     (hns : NoLinkOnPath fs p) :
     openFS fs p = match fs.get? p with
       | none => .err .notexist
       | some i =>
-        match (fs.ino i).kind, (fs.ino i).data with
-        | .dir, _ => .dir (fs.info i) (fs.entries i)
-        | .reg, some d => .file (fs.info i) d
-        | .reg, none => .err .other
-        | .special, _ => .err .exist
-        | .sym, _ => openAux fs fs.inodes.length (fs.ino i).link
-        | .link, _ =>
+        match (fs.ino i).kind with
+        | .dir => .dir (fs.info i) (fs.entries i)
+        | .reg =>
+          match readSeg (fs.ino i) with
+          | .ok d => .file (fs.info i) d
+          | .error e => .err e
+        | .special => .err .exist
+        | .sym => openAux fs fs.inodes.length (fs.ino i).link
+        | .link =>
           match linkChain fs fs.inodes.length (getInode fs (fs.ino i).link) with
           | .error e => .err e
           | .ok t =>
-            match (fs.ino t).data with
-            | some d => .file (fs.info i) d
-            | none => .err .other :=
+            match readSeg (fs.ino t) with
+            | .ok d => .file (fs.info i) d
+            | .error e => .err e :=
   h.open hp hns
 
+/-- `checkSize` (ce813f23): a member whose header size (PAX `size` record, the
+    logical size of a sparse file) exceeds the archive segment that holds it is
+    never read: `readSeg` answers ErrInvalid whatever the segment holds, and a
+    member that fits reads exactly what its segment holds. -/
+theorem oversize_refused (n : Inode) (h : n.md.seg < n.md.hsize) : readSeg n = .error .invalid :=
+  readSeg_oversize h
+
+theorem fitting_member_reads_segment (n : Inode) (d : Bytes) (hd : n.data = some d)
+    (h : n.md.hsize ≤ n.md.seg) : readSeg n = .ok d :=
+  readSeg_fits hd h
+
 /-- Hard links resolve as inside the root: opening a hard link whose target
-    name is the key of a regular file yields that file's bytes (under the
-    link's own header). -/
+    name is the key of a regular file (that fits its segment) yields that
+    file's bytes (under the link's own header). -/
 theorem hardlink_reads_target (fs : FS) (h : TreeOK [] fs) (p : Bytes) (i j : Nat) (d : Bytes)
     (hp : validPath p = true) (hns : NoLinkOnPath fs p)
     (hi : fs.get? p = some i) (hk : (fs.ino i).kind = .link)
     (hns' : NoLinkOnPath fs (fs.ino i).link)
-    (hj : fs.get? (fs.ino i).link = some j) (hjk : (fs.ino j).kind = .reg) (hd : (fs.ino j).data = some d) :
+    (hj : fs.get? (fs.ino i).link = some j) (hjk : (fs.ino j).kind = .reg) (hd : (fs.ino j).data = some d)
+    (hfit : (fs.ino j).md.hsize ≤ (fs.ino j).md.seg) :
     openFS fs p = .file (fs.info i) d :=
-  h.open_hardlink hp hns hi hk hns' hj hjk hd
+  h.open_hardlink hp hns hi hk hns' hj hjk hd hfit
+
+/-- ... and a hard link to an oversized file is refused like the file. -/
+theorem hardlink_oversize_refused (fs : FS) (h : TreeOK [] fs) (p : Bytes) (i j : Nat)
+    (hp : validPath p = true) (hns : NoLinkOnPath fs p)
+    (hi : fs.get? p = some i) (hk : (fs.ino i).kind = .link)
+    (hns' : NoLinkOnPath fs (fs.ino i).link)
+    (hj : fs.get? (fs.ino i).link = some j) (hjk : (fs.ino j).kind = .reg)
+    (hbig : (fs.ino j).md.seg < (fs.ino j).md.hsize) :
+    openFS fs p = .err .invalid :=
+  h.open_hardlink_oversize hp hns hi hk hns' hj hjk hbig
 
 theorem view_readdir (fs : FS) (h : TreeOK [] fs) (p : Bytes) (hp : validPath p = true)
     (hns : NoLinkOnPath fs p) :
@@ -248,6 +275,46 @@ theorem view_readdir_entries (fs : FS) (h : TreeOK [] fs) (p : Bytes) (j : Nat)
     e ∈ fs.entries j ↔ ∃ k i, fs.get? k = some i ∧ k ≠ dotP ∧ dirOf k = p ∧
       e = { name := baseOf k, mtype := (fs.ino i).kind.mtype } :=
   h.mem_entries hj e
+
+/-- Paging, `n ≤ 0` (fixed code 4525426c): `ReadDir(n)` on a directory handle
+    hands out everything that is left in one slice, without an error, and moves
+    the position to the end. -/
+theorem readdir_n_nonpositive_all {α : Type} (d : DirH α) (n : Int) (hn : n ≤ 0) :
+    (d.readDir n).2 = .entries (d.es.drop d.pos) ∧ d.es.length ≤ (d.readDir n).1.pos :=
+  readDir_all d n hn
+
+/-- Paging, `n > 0`: the next at most `n` entries in listing order, and
+    `io.EOF` exactly when nothing is left. -/
+theorem readdir_n_page {α : Type} (d : DirH α) (n : Int) (hn : 0 < n) :
+    (d.readDir n).2 = (if d.es.length ≤ d.pos then .eof else .entries ((d.es.drop d.pos).take n.toNat)) :=
+  readDir_page d n hn
+
+/-- Paging is complete and repeats nothing: for every sequence of calls on a
+    fresh handle (positive page sizes, 0, -1, other negative numbers, mixed) the
+    entries handed out, concatenated, are a prefix of the sorted listing; no
+    call panics. -/
+theorem readdir_paging_prefix {α : Type} (es : List α) (ns : List Int) :
+    ∃ k, k ≤ es.length ∧
+      ((readPages { es := es } ns).flatMap Page.got) = es.take k ∧
+      .panic ∉ readPages ({ es := es } : DirH α) ns := by
+  obtain ⟨k, hk, hcat, hnp⟩ := readPages_prefix ns ({ es := es } : DirH α) [] ⟨Nat.zero_le _, by simp⟩
+  exact ⟨k, hk, by simpa using hcat, hnp⟩
+
+/-- `io.EOF` is answered only when the whole listing has been handed out (and
+    only to a call with `n > 0`). -/
+theorem readdir_eof_only_at_end {α : Type} (d : DirH α) (n : Int) (h : (d.readDir n).2 = .eof) :
+    d.es.length ≤ d.pos ∧ 0 < n :=
+  readDir_eof d n h
+
+/-- The io/fs contract ("if n <= 0, ReadDir returns all the DirEntry values in
+    a single slice") as the code before 4525426c broke it: `ReadDir(0)` returned
+    no entry and no error, `ReadDir(-2)` panicked. -/
+theorem readdir_nonpositive_counterexample :
+    (({ es := [1, 2, 3] } : DirH Nat).readDirLegacy 0).2 = .entries [] ∧
+    (({ es := [1, 2, 3] } : DirH Nat).readDirLegacy (-2)).2 = .panic ∧
+    (({ es := [1, 2, 3] } : DirH Nat).readDir 0).2 = .entries [1, 2, 3] ∧
+    (({ es := [1, 2, 3] } : DirH Nat).readDir (-2)).2 = .entries [1, 2, 3] :=
+  readdir_zero_counterexample
 
 /-- Listings are sorted by name (for every view, whatever the archive). -/
 theorem readdir_sorted (fs : FS) (j : Nat) :
